@@ -1452,8 +1452,17 @@ class Engine:
         results = []
         self.queue = [[]]
         z3.set_param("model.completion", True)
+        t_start = time.time()
         while self.queue:
             prefix = self.queue.pop()
+            if getattr(self, "max_wall_s", None) and time.time() - t_start > self.max_wall_s:
+                # best-effort job: the rest of the decision tree is left unexplored and says so
+                r = PathResult()
+                r.status = "cutoff"
+                r.error = "job wall budget of %d s exhausted (exploration incomplete)" % self.max_wall_s
+                results.append(r)
+                self.incomplete = len(self.queue) + 1
+                break
             if self.paths >= self.max_paths:
                 r = PathResult()
                 r.status = "unsupported"
